@@ -1,6 +1,1326 @@
-//! C03 — not implemented yet.
-use crate::report::{Cfg, Report};
+//! C03 — samplers draw from the distribution they describe, in every parameter regime
+//! (DESIGN §3 C03, §0 bounded-progress restatement of "terminates").
+//!
+//! Events: every value returned by `sample`, `sample_n`, `sample_matrix`, `DistributionND::sample_n`
+//! (or the panic that replaced it), the per-site iteration hooks of every sampler loop, the raw
+//! RNG draws consumed (from the `alea` state, no hook needed).
+//!
+//! Oracle, per case (one law at one parameter point, one RNG seed, n draws):
+//!   * `C03.no_panic`     construction and every draw of a valid parameter point return a value;
+//!   * `C03.terminates`   bounded progress: no single draw ticks any loop site more than 10^6 times.
+//!                        Draws run in chunks under a per-site budget of 10^6 for the whole chunk
+//!                        (chunk total <= 10^6 implies every draw <= 10^6); if a chunk trips the
+//!                        budget it is replayed from the saved RNG state one draw at a time with the
+//!                        counters reset before each draw, so only a *single draw* above 10^6
+//!                        iterations is a violation (a correct but slow sampler can never trip it);
+//!   * `C03.bulk.*`       `sample_n(m)` has length m, `sample_matrix(r,c)` is r x c with r*c entries,
+//!                        MVN `sample()` has length d, `DistributionND::sample_n(m)` is m x d;
+//!   * `C03.support`      every draw finite and inside the closed support; `C03.integer` for
+//!                        discrete laws;
+//!   * `C03.dkw`          sup|F_n − F| <= sqrt(ln(2/α)/(2n)), α = 1e-12, F = the harness's own CDF
+//!                        (oracle::special), both one-sided gaps at every sample point (atoms: F(k)
+//!                        and F(k−1));
+//!   * `C03.mvn.coord` / `C03.mvn.proj`   MVN draws whitened with the harness's own Cholesky factor
+//!                        of the requested Σ: every coordinate and 8 random unit projections pass
+//!                        the same DKW test against N(0,1).
+//! False-alarm probability of a run <= (#DKW tests)·1e-12 by construction.
+use crate::gen::Rng;
+use crate::oracle::linref;
+#[cfg(not(miri))]
+use crate::oracle::special as sp;
+#[cfg(not(miri))]
+use crate::oracle::stats;
+use crate::report::{guard, is_budget_panic, jf, jnum, par_cases, Cfg, Hasher, Report};
+use compute::distributions::{
+    Bernoulli, Beta, Binomial, ChiSquared, DiscreteUniform, Distribution, Distribution1D, DistributionND, Exponential, Gamma, Gumbel, Normal, Pareto, Poisson,
+    Uniform, MVN, T,
+};
+use compute::linalg::{Matrix, Vector};
+use compute::verif_hooks as vh;
+use serde_json::{json, Value};
+use std::collections::BTreeMap;
 
-pub fn run(_cfg: &Cfg, rep: &mut Report) {
-    rep.inconclusive("monitor for C03 not implemented".to_string());
+#[cfg(not(miri))]
+const ALPHA: f64 = 1e-12;
+/// DESIGN §0: a draw must finish within 10^6 iterations of any rejection loop.
+const BUDGET: u64 = 1_000_000;
+/// wyrand increment of alea 0.2.2; raw draws consumed = Δstate · WY_INV (mod 2^64)
+const WY_INC: u64 = 0xa0761d6478bd642f;
+const fn inv_mod_2_64(c: u64) -> u64 {
+    // Newton iteration for the inverse of an odd number modulo 2^64
+    let mut x = c;
+    let mut i = 0;
+    while i < 6 {
+        x = x.wrapping_mul(2u64.wrapping_sub(c.wrapping_mul(x)));
+        i += 1;
+    }
+    x
+}
+const WY_INV: u64 = inv_mod_2_64(WY_INC);
+
+// ---------------------------------------------------------------------------------------------
+// one-dimensional laws
+
+#[derive(Clone, Debug)]
+enum Law {
+    Normal(f64, f64),
+    Gamma(f64, f64),
+    Beta(f64, f64),
+    Chi2(usize),
+    T(f64),
+    Poisson(f64),
+    Binomial(u64, f64),
+    Exponential(f64),
+    Gumbel(f64, f64),
+    Pareto(f64, f64),
+    Uniform(f64, f64),
+    DiscreteUniform(i64, i64),
+    Bernoulli(f64),
+}
+
+const THIRD: f64 = 1.0 / 3.0;
+
+impl Law {
+    fn family(&self) -> &'static str {
+        match self {
+            Law::Normal(..) => "normal",
+            Law::Gamma(..) => "gamma",
+            Law::Beta(..) => "beta",
+            Law::Chi2(..) => "chi2",
+            Law::T(..) => "t",
+            Law::Poisson(..) => "poisson",
+            Law::Binomial(..) => "binomial",
+            Law::Exponential(..) => "exponential",
+            Law::Gumbel(..) => "gumbel",
+            Law::Pareto(..) => "pareto",
+            Law::Uniform(..) => "uniform",
+            Law::DiscreteUniform(..) => "discrete-uniform",
+            Law::Bernoulli(..) => "bernoulli",
+        }
+    }
+    fn params(&self) -> Vec<f64> {
+        match *self {
+            Law::Normal(a, b) | Law::Gamma(a, b) | Law::Beta(a, b) | Law::Gumbel(a, b) | Law::Pareto(a, b) | Law::Uniform(a, b) => vec![a, b],
+            Law::Chi2(k) => vec![k as f64],
+            Law::T(a) | Law::Poisson(a) | Law::Exponential(a) | Law::Bernoulli(a) => vec![a],
+            Law::Binomial(n, p) => vec![n as f64, p],
+            Law::DiscreteUniform(a, b) => vec![a as f64, b as f64],
+        }
+    }
+    /// Regime label: the class of parameter points that drives one algorithm branch.
+    fn regime(&self) -> &'static str {
+        match *self {
+            Law::Normal(_, s) => {
+                if s == 0.0 {
+                    "normal:sigma=0"
+                } else {
+                    "normal:sigma>0"
+                }
+            }
+            Law::Gamma(a, _) => {
+                if a < THIRD {
+                    "gamma:shape<1/3"
+                } else if a == THIRD {
+                    "gamma:shape=1/3"
+                } else if a < 1.0 {
+                    "gamma:1/3<shape<1"
+                } else {
+                    "gamma:shape>=1"
+                }
+            }
+            Law::Beta(a, b) => {
+                let m = a.min(b);
+                if m < THIRD {
+                    "beta:min(a,b)<1/3"
+                } else if m == THIRD {
+                    "beta:min(a,b)=1/3"
+                } else if m < 1.0 {
+                    "beta:1/3<min(a,b)<1"
+                } else {
+                    "beta:a,b>=1"
+                }
+            }
+            Law::Chi2(k) => {
+                if k < 2 {
+                    "chi2:dof<2"
+                } else {
+                    "chi2:dof>=2"
+                }
+            }
+            Law::T(d) => {
+                if d / 2.0 < THIRD {
+                    "t:dof<2/3"
+                } else if d / 2.0 == THIRD {
+                    "t:dof=2/3"
+                } else if d < 2.0 {
+                    "t:2/3<dof<2"
+                } else {
+                    "t:dof>=2"
+                }
+            }
+            Law::Poisson(l) => {
+                if l < 10.0 {
+                    "poisson:rate<10"
+                } else if l <= 100.0 {
+                    "poisson:10<=rate<=100"
+                } else if l < 150.0 {
+                    "poisson:100<rate<150"
+                } else {
+                    "poisson:rate>=150"
+                }
+            }
+            Law::Binomial(n, p) => {
+                if n == 0 {
+                    "binomial:n=0"
+                } else if p == 0.0 {
+                    "binomial:p=0"
+                } else if p == 1.0 {
+                    "binomial:p=1"
+                } else {
+                    // the same floating-point predicate as the library's dispatcher; the hook sites
+                    // binomial.inv.call / binomial.btpe.call confirm the branch really taken
+                    let flip = p > 0.5;
+                    let q = if flip { 1.0 - p } else { p };
+                    let inv = q * n as f64 <= 30.0;
+                    match (inv, flip) {
+                        (true, false) => "binomial:n*min(p,1-p)<=30:p<=0.5",
+                        (true, true) => "binomial:n*min(p,1-p)<=30:p>0.5",
+                        (false, false) => "binomial:n*min(p,1-p)>30:p<=0.5",
+                        (false, true) => "binomial:n*min(p,1-p)>30:p>0.5",
+                    }
+                }
+            }
+            Law::Exponential(_) => "exponential",
+            Law::Gumbel(..) => "gumbel",
+            Law::Pareto(..) => "pareto",
+            Law::Uniform(a, b) => {
+                if a == b {
+                    "uniform:equal-bounds"
+                } else {
+                    "uniform:lower<upper"
+                }
+            }
+            Law::DiscreteUniform(a, b) => {
+                if a == b {
+                    "discrete-uniform:equal-bounds"
+                } else {
+                    "discrete-uniform:lower<upper"
+                }
+            }
+            Law::Bernoulli(p) => {
+                if p == 0.0 {
+                    "bernoulli:p=0"
+                } else if p == 1.0 {
+                    "bernoulli:p=1"
+                } else {
+                    "bernoulli:0<p<1"
+                }
+            }
+        }
+    }
+    fn build(&self) -> Box<dyn Distribution1D> {
+        match *self {
+            Law::Normal(m, s) => Box::new(Normal::new(m, s)),
+            Law::Gamma(a, b) => Box::new(Gamma::new(a, b)),
+            Law::Beta(a, b) => Box::new(Beta::new(a, b)),
+            Law::Chi2(k) => Box::new(ChiSquared::new(k)),
+            Law::T(d) => Box::new(T::new(d)),
+            Law::Poisson(l) => Box::new(Poisson::new(l)),
+            Law::Binomial(n, p) => Box::new(Binomial::new(n, p)),
+            Law::Exponential(l) => Box::new(Exponential::new(l)),
+            Law::Gumbel(m, b) => Box::new(Gumbel::new(m, b)),
+            Law::Pareto(a, m) => Box::new(Pareto::new(a, m)),
+            Law::Uniform(a, b) => Box::new(Uniform::new(a, b)),
+            Law::DiscreteUniform(a, b) => Box::new(DiscreteUniform::new(a, b)),
+            Law::Bernoulli(p) => Box::new(Bernoulli::new(p)),
+        }
+    }
+    /// Degenerate laws: all mass on one point.
+    fn point_mass(&self) -> Option<f64> {
+        match *self {
+            Law::Normal(m, s) if s == 0.0 => Some(m),
+            Law::Uniform(a, b) if a == b => Some(a),
+            Law::DiscreteUniform(a, b) if a == b => Some(a as f64),
+            Law::Bernoulli(p) if p == 0.0 => Some(0.0),
+            Law::Bernoulli(p) if p == 1.0 => Some(1.0),
+            Law::Binomial(n, p) if n == 0 || p == 0.0 => Some(0.0),
+            Law::Binomial(n, p) if p == 1.0 => Some(n as f64),
+            _ => None,
+        }
+    }
+    fn discrete(&self) -> bool {
+        matches!(self, Law::Poisson(_) | Law::Binomial(..) | Law::DiscreteUniform(..) | Law::Bernoulli(_))
+    }
+    /// Closed support (the closure is used so that a correctly rounded boundary value is accepted).
+    fn in_support(&self, x: f64) -> bool {
+        if !x.is_finite() {
+            return false;
+        }
+        if let Some(c) = self.point_mass() {
+            return x == c;
+        }
+        match *self {
+            Law::Normal(..) | Law::T(_) | Law::Gumbel(..) => true,
+            Law::Gamma(..) | Law::Chi2(_) | Law::Exponential(_) | Law::Poisson(_) => x >= 0.0,
+            Law::Beta(..) => (0.0..=1.0).contains(&x),
+            Law::Binomial(n, _) => x >= 0.0 && x <= n as f64,
+            Law::Pareto(_, m) => x >= m,
+            Law::Uniform(a, b) => x >= a && x <= b,
+            Law::DiscreteUniform(a, b) => x >= a as f64 && x <= b as f64,
+            Law::Bernoulli(_) => x == 0.0 || x == 1.0,
+        }
+    }
+    /// F(x) = P(X <= x), the harness's own CDF.
+    #[cfg(not(miri))]
+    fn cdf(&self, x: f64) -> f64 {
+        if let Some(c) = self.point_mass() {
+            return if x >= c { 1.0 } else { 0.0 };
+        }
+        match *self {
+            Law::Normal(m, s) => sp::norm_cdf(x, m, s),
+            Law::Gamma(a, b) => sp::gamma_cdf(x, a, b),
+            Law::Beta(a, b) => sp::beta_cdf(x, a, b),
+            Law::Chi2(k) => sp::chi2_cdf(x, k as f64),
+            Law::T(d) => sp::t_cdf(x, d),
+            Law::Poisson(l) => sp::poisson_cdf(x.floor(), l),
+            Law::Binomial(n, p) => sp::binom_cdf(x.floor(), n as f64, p),
+            Law::Exponential(l) => sp::exp_cdf(x, l),
+            Law::Gumbel(m, b) => sp::gumbel_cdf(x, m, b),
+            Law::Pareto(a, m) => sp::pareto_cdf(x, a, m),
+            Law::Uniform(a, b) => sp::unif_cdf(x, a, b),
+            Law::DiscreteUniform(a, b) => {
+                let k = x.floor();
+                if k < a as f64 {
+                    0.0
+                } else if k >= b as f64 {
+                    1.0
+                } else {
+                    (k - a as f64 + 1.0) / ((b as i128 - a as i128 + 1) as f64)
+                }
+            }
+            Law::Bernoulli(p) => {
+                if x < 0.0 {
+                    0.0
+                } else if x < 1.0 {
+                    1.0 - p
+                } else {
+                    1.0
+                }
+            }
+        }
+    }
+    /// F(x−)
+    #[cfg(not(miri))]
+    fn cdf_left(&self, x: f64) -> f64 {
+        if let Some(c) = self.point_mass() {
+            return if x > c { 1.0 } else { 0.0 };
+        }
+        if self.discrete() {
+            if x == x.floor() {
+                self.cdf(x - 1.0)
+            } else {
+                self.cdf(x.floor())
+            }
+        } else {
+            self.cdf(x)
+        }
+    }
+    /// Hook sites that a case of this law must have ticked (otherwise the regime label does not
+    /// describe the branch that ran and the case proves nothing about it → inconclusive).
+    fn expected_sites(&self) -> &'static [&'static str] {
+        match *self {
+            Law::Normal(..) => &["normal.zig"],
+            Law::Gamma(..) | Law::Beta(..) | Law::Chi2(_) | Law::T(_) => &["gamma.outer", "gamma.inner", "normal.zig"],
+            Law::Poisson(l) => {
+                if l < 10.0 {
+                    &["poisson.mult"]
+                } else {
+                    &["poisson.ptrs"]
+                }
+            }
+            Law::Binomial(..) => match self.regime() {
+                "binomial:n*min(p,1-p)<=30:p<=0.5" => &["binomial.inv.call"],
+                "binomial:n*min(p,1-p)<=30:p>0.5" => &["binomial.inv.call", "binomial.flip"],
+                "binomial:n*min(p,1-p)>30:p<=0.5" => &["binomial.btpe.call", "binomial.btpe"],
+                "binomial:n*min(p,1-p)>30:p>0.5" => &["binomial.btpe.call", "binomial.btpe", "binomial.flip"],
+                _ => &[],
+            },
+            _ => &[],
+        }
+    }
+    fn hash(&self, seed: u64) -> u64 {
+        Hasher::new().s(self.family()).fs(&self.params()).u(seed).finish()
+    }
+}
+
+// ---------------------------------------------------------------------------------------------
+// multivariate normal cases
+
+#[derive(Clone, Debug)]
+struct MvnSpec {
+    regime: &'static str,
+    mean: Vec<f64>,
+    sigma: Vec<f64>, // d x d row-major, exactly symmetric
+}
+
+fn mvn_random(rng: &mut Rng, d: usize) -> MvnSpec {
+    // Σ = A·Aᵀ + 0.05·I with A standard normal entries, scaled per axis; exactly symmetric by mirroring
+    let a: Vec<f64> = rng.normals(d * d);
+    let sc: Vec<f64> = (0..d).map(|_| rng.log_range(0.1, 10.0)).collect();
+    let mut s = vec![0.0; d * d];
+    for i in 0..d {
+        for j in 0..=i {
+            let mut v = 0.0;
+            for k in 0..d {
+                v += a[i * d + k] * a[j * d + k];
+            }
+            if i == j {
+                v += 0.05;
+            }
+            v *= sc[i] * sc[j];
+            s[i * d + j] = v;
+            s[j * d + i] = v;
+        }
+    }
+    let mean = (0..d).map(|_| rng.range(-1e3, 1e3)).collect();
+    MvnSpec { regime: "mvn:correlated", mean, sigma: s }
+}
+
+#[derive(Clone, Debug)]
+enum CaseSpec {
+    One(Law),
+    Mvn(MvnSpec),
+}
+
+// ---------------------------------------------------------------------------------------------
+// the case grid (DESIGN §3 C03 "W")
+
+fn base_grid() -> Vec<CaseSpec> {
+    use Law::*;
+    let mut v: Vec<Law> = Vec::new();
+    // normal, |mu| up to 1e3, several scales, degenerate sigma
+    for &(m, s) in &[(0.0, 1.0), (1e3, 1.0), (-1e3, 2.5), (5.0, 1e-3), (-3.0, 1e3), (1e3, 1e-3), (2.0, 0.0)] {
+        v.push(Normal(m, s));
+    }
+    // gamma: shape on both sides of 1/3 and 1, several rates
+    for &(a, b) in &[
+        (0.05, 1.0),
+        (0.2, 2.0),
+        (0.33, 1.0),
+        (THIRD, 1.0),
+        (0.34, 1.0),
+        (0.5, 1.0),
+        (0.9, 0.5),
+        (1.0, 1.0),
+        (1.5, 4.0),
+        (2.0, 4.0),
+        (5.0, 1e-3),
+        (50.0, 1e3),
+        (1000.0, 1.0),
+    ] {
+        v.push(Gamma(a, b));
+    }
+    for &(a, b) in &[(0.2, 2.0), (3.0, 0.1), (0.5, 0.5), (0.8, 2.0), (5.0, 0.7), (1.0, 1.0), (2.0, 3.0), (1.0, 5.0), (1.5, 1.0), (50.0, 20.0)] {
+        v.push(Beta(a, b));
+    }
+    for &k in &[1usize, 2, 3, 10, 100] {
+        v.push(Chi2(k));
+    }
+    for &d in &[0.5, 0.8, 1.0, 1.5, 2.0, 5.0, 30.0] {
+        v.push(T(d));
+    }
+    for &l in &[3.0, 0.1, 9.9, 10.0, 42.0, 100.0, 125.0, 149.0, 150.0, 200.0, 1e3] {
+        v.push(Poisson(l));
+    }
+    for &(n, p) in &[
+        // inversion, p <= 0.5
+        (1u64, 0.5),
+        (10, 0.3),
+        (60, 0.5),
+        (100, 0.3),
+        (100_000, 2e-4),
+        (100_000, 3e-4),
+        // inversion, flipped
+        (10, 0.9),
+        (100, 0.75),
+        (100_000, 0.9998),
+        // BTPE, p <= 0.5
+        (61, 0.5),
+        (100, 0.31),
+        (1000, 0.5),
+        (100_000, 3.1e-4),
+        (100_000, 0.01),
+        (100_000, 0.5),
+        // BTPE, flipped
+        (100, 0.69),
+        (1000, 0.969),
+        (100_000, 0.6),
+        // degenerate
+        (0, 0.3),
+        (25, 0.0),
+        (25, 1.0),
+    ] {
+        v.push(Binomial(n, p));
+    }
+    for &l in &[1.0, 1e-3, 1e3, 0.5] {
+        v.push(Exponential(l));
+    }
+    for &(m, b) in &[(0.0, 1.0), (1e3, 0.5), (-5.0, 100.0)] {
+        v.push(Gumbel(m, b));
+    }
+    for &(a, m) in &[(1.0, 1.0), (0.5, 2.0), (10.0, 1e-3), (3.0, 1e3)] {
+        v.push(Pareto(a, m));
+    }
+    for &(a, b) in &[(0.0, 1.0), (-1e3, 1e3), (5.0, 5.001), (-1e-3, 0.0), (2.5, 2.5), (0.0, 0.0)] {
+        v.push(Uniform(a, b));
+    }
+    for &(a, b) in &[(0i64, 1i64), (-5, 5), (1, 6), (0, 999), (-1_000_000_000, 1_000_000_000), (3, 3), (-7, -7)] {
+        v.push(DiscreteUniform(a, b));
+    }
+    for &p in &[0.5, 0.01, 0.999, 0.0, 1.0] {
+        v.push(Bernoulli(p));
+    }
+    let mut out: Vec<CaseSpec> = v.into_iter().map(CaseSpec::One).collect();
+    // MVN
+    out.push(CaseSpec::Mvn(MvnSpec { regime: "mvn:d=1", mean: vec![3.0], sigma: vec![4.0] }));
+    out.push(CaseSpec::Mvn(MvnSpec { regime: "mvn:identity", mean: vec![0.0, 0.0], sigma: vec![1.0, 0.0, 0.0, 1.0] }));
+    out.push(CaseSpec::Mvn(MvnSpec {
+        regime: "mvn:diagonal",
+        mean: vec![-1e3, 0.0, 1e3],
+        sigma: vec![0.01, 0.0, 0.0, 0.0, 1.0, 0.0, 0.0, 0.0, 100.0],
+    }));
+    out.push(CaseSpec::Mvn(MvnSpec { regime: "mvn:correlated", mean: vec![1.0, -1.0], sigma: vec![1.0, 0.9, 0.9, 1.0] }));
+    out.push(CaseSpec::Mvn(MvnSpec {
+        regime: "mvn:correlated",
+        mean: vec![0.0, 10.0, -10.0],
+        sigma: vec![1.0, -0.99, 0.0, -0.99, 1.0, 0.1, 0.0, 0.1, 4.0],
+    }));
+    out
+}
+
+const DEEP_N: usize = 4_000_000;
+
+/// Deeper quick-tier cases: one or two per sampler branch, all in regimes where the code is believed
+/// correct (a defect regime gains nothing from more draws).
+fn sentinels() -> Vec<CaseSpec> {
+    use Law::*;
+    let mut out: Vec<CaseSpec> = [
+        Normal(0.0, 1.0),
+        Gamma(1.0, 1.0),
+        Gamma(2.5, 1.0),
+        Gamma(30.0, 2.0),
+        Beta(2.0, 3.0),
+        Chi2(3),
+        T(5.0),
+        Poisson(3.0),
+        Poisson(10.0),
+        Poisson(42.0),
+        Poisson(90.0),
+        Binomial(100, 0.3),
+        Binomial(100, 0.31),
+        Binomial(61, 0.5),
+        Binomial(1000, 0.2),
+        Binomial(100_000, 0.5),
+        Binomial(1000, 0.8),
+        Exponential(1.0),
+        Gumbel(0.0, 1.0),
+        Pareto(2.0, 1.0),
+        Uniform(0.0, 1.0),
+        DiscreteUniform(1, 6),
+        Bernoulli(0.3),
+    ]
+    .into_iter()
+    .map(CaseSpec::One)
+    .collect();
+    out.push(CaseSpec::Mvn(MvnSpec { regime: "mvn:correlated", mean: vec![1.0, -1.0], sigma: vec![1.0, 0.9, 0.9, 1.0] }));
+    out
+}
+
+/// A random parameter point inside one of the regimes (used for the "× parameter grids" part beyond
+/// the fixed grid; labels come from `Law::regime`, so a point is judged under its own class).
+fn random_case(rng: &mut Rng) -> CaseSpec {
+    use Law::*;
+    let law = match rng.usize(0, 27) {
+        0 => Normal(rng.range(-1e3, 1e3), rng.log_range(1e-3, 1e3)),
+        1 => Gamma(rng.log_range(0.02, 0.32), rng.log_range(1e-2, 1e2)),
+        2 => Gamma(rng.range(0.34, 0.99), rng.log_range(1e-2, 1e2)),
+        3 | 4 => Gamma(rng.log_range(1.0, 300.0), rng.log_range(1e-2, 1e2)),
+        5 => {
+            let (a, b) = (rng.log_range(0.05, 0.32), rng.log_range(0.4, 10.0));
+            if rng.bool() {
+                Beta(a, b)
+            } else {
+                Beta(b, a)
+            }
+        }
+        6 => {
+            let (a, b) = (rng.range(0.34, 0.99), rng.log_range(0.4, 10.0));
+            if rng.bool() {
+                Beta(a, b)
+            } else {
+                Beta(b, a)
+            }
+        }
+        7 | 8 => Beta(rng.log_range(1.0, 100.0), rng.log_range(1.0, 100.0)),
+        9 => Chi2(rng.usize(2, 60)),
+        10 => T(rng.range(0.1, 0.66)),
+        11 => T(rng.range(0.67, 1.99)),
+        12 => T(rng.log_range(2.0, 100.0)),
+        13 => Poisson(rng.log_range(0.05, 9.99)),
+        14 => Poisson(rng.range(10.0, 100.0)),
+        15 => Poisson(rng.log_range(150.0, 3000.0)),
+        16 | 17 => {
+            // inversion side: n * q <= 30
+            let n = rng.log_range(1.0, 1e5).floor() as u64;
+            let q = rng.range(0.0, (30.0 / n as f64).min(0.5)).max(1e-9);
+            Binomial(n, if rng.bool() { 1.0 - q } else { q })
+        }
+        18 | 19 | 20 => {
+            // BTPE side: n * q > 30
+            let n = rng.log_range(70.0, 1e5).floor() as u64;
+            let lo = 30.5 / n as f64;
+            let q = rng.range(lo, 0.5);
+            Binomial(n, if rng.bool() { 1.0 - q } else { q })
+        }
+        21 => Exponential(rng.log_range(1e-3, 1e3)),
+        22 => Gumbel(rng.range(-1e3, 1e3), rng.log_range(1e-2, 1e2)),
+        23 => Pareto(rng.log_range(0.3, 20.0), rng.log_range(1e-3, 1e3)),
+        24 => {
+            let a = rng.range(-1e3, 1e3);
+            Uniform(a, a + rng.log_range(1e-3, 1e3))
+        }
+        25 => {
+            let a = rng.int(-1000, 1000);
+            DiscreteUniform(a, a + rng.int(1, 1000))
+        }
+        26 => Bernoulli(rng.range(0.001, 0.999)),
+        _ => {
+            let d = rng.usize(2, 4);
+            return CaseSpec::Mvn(mvn_random(rng, d));
+        }
+    };
+    CaseSpec::One(law)
+}
+
+// ---------------------------------------------------------------------------------------------
+// drawing under the iteration budget
+
+type SiteCounts = BTreeMap<&'static str, u64>;
+
+fn absorb(local: &mut SiteCounts) {
+    for (k, v) in vh::snapshot() {
+        if v > 0 {
+            *local.entry(k).or_insert(0) += v;
+        }
+    }
+    vh::reset();
+}
+
+fn flush(rep: &mut Report, local: &SiteCounts) {
+    for (k, v) in local {
+        *rep.hooks.entry(k.to_string()).or_insert(0) += v;
+    }
+}
+
+#[derive(Clone, Copy, Debug)]
+enum Mode {
+    Single,
+    VecN,
+    Mat(usize, usize),
+}
+
+/// How the n draws of a case are requested: a few small bulk calls (count 0, 1, odd shapes) and then
+/// chunks cycling through `sample()`, `sample_n(m)` and `sample_matrix(r, c)`.
+fn schedule(n: usize, chunk: usize) -> Vec<(Mode, usize)> {
+    let mut s = vec![(Mode::VecN, 0), (Mode::VecN, 1), (Mode::Mat(1, 1), 1), (Mode::Mat(3, 5), 15), (Mode::Mat(5, 3), 15), (Mode::VecN, 7)];
+    let mut have: usize = s.iter().map(|x| x.1).sum();
+    let mut k = 0;
+    while have < n {
+        let m = chunk.min(n - have);
+        let mode = match k % 4 {
+            0 => Mode::Single,
+            1 => Mode::VecN,
+            2 if m % 16 == 0 => Mode::Mat(m / 16, 16),
+            3 if m % 16 == 0 => Mode::Mat(16, m / 16),
+            2 => Mode::Mat(m, 1),
+            _ => Mode::Mat(1, m),
+        };
+        s.push((mode, m));
+        have += m;
+        k += 1;
+    }
+    s
+}
+
+enum DrawEnd {
+    Done,
+    /// the case cannot continue (violation already recorded)
+    Aborted,
+}
+
+struct BulkStat {
+    n_calls: u64,
+    m_calls: u64,
+    n_bad: Option<Value>,
+    m_bad: Option<Value>,
+}
+
+/// Draw according to `plan`, appending to `xs`.
+fn draw_1d(rep: &mut Report, regime: &str, d: &dyn Distribution1D, plan: &[(Mode, usize)], xs: &mut Vec<f64>, local: &mut SiteCounts, bulk: &mut BulkStat, ctx: &dyn Fn() -> Value) -> DrawEnd {
+    for &(mode, m) in plan {
+        let state = alea::get_seed();
+        let r = guard(|| match mode {
+            Mode::Single => {
+                let v: Vec<f64> = (0..m).map(|_| d.sample()).collect();
+                (v, 0usize, 0usize)
+            }
+            Mode::VecN => {
+                let v: Vector = d.sample_n(m);
+                (v.v, 0, 0)
+            }
+            Mode::Mat(r, c) => {
+                let mm: Matrix = d.sample_matrix(r, c);
+                (mm.data.v, mm.nrows, mm.ncols)
+            }
+        });
+        absorb(local);
+        match r {
+            Ok((v, nr, nc)) => {
+                match mode {
+                    Mode::Single => {}
+                    Mode::VecN => {
+                        bulk.n_calls += 1;
+                        if v.len() != m && bulk.n_bad.is_none() {
+                            bulk.n_bad = Some(json!({"requested": m, "returned_len": v.len()}));
+                        }
+                    }
+                    Mode::Mat(r, c) => {
+                        bulk.m_calls += 1;
+                        if (nr != r || nc != c || v.len() != r * c) && bulk.m_bad.is_none() {
+                            bulk.m_bad = Some(json!({"requested": [r, c], "returned_shape": [nr, nc], "returned_len": v.len()}));
+                        }
+                    }
+                }
+                xs.extend_from_slice(&v);
+            }
+            Err(msg) if is_budget_panic(&msg) => {
+                // the chunk as a whole exceeded 10^6 ticks at one site: decide per draw
+                alea::set_seed(state);
+                for k in 0..m {
+                    vh::reset();
+                    let one = guard(|| d.sample());
+                    absorb(local);
+                    match one {
+                        Ok(x) => xs.push(x),
+                        Err(msg1) if is_budget_panic(&msg1) => {
+                            rep.check("C03.terminates", regime, false, || {
+                                let mut c = ctx();
+                                c["draw_index"] = json!(xs.len());
+                                c["index_in_chunk"] = json!(k);
+                                c["panic"] = json!(msg1);
+                                c["budget_per_site_per_draw"] = json!(BUDGET_NOW.with(|b| b.get()));
+                                c["expected"] = json!("every draw finishes within the iteration budget (bounded-progress restatement of 'sampling terminates')");
+                                c
+                            });
+                            return DrawEnd::Aborted;
+                        }
+                        Err(msg1) => {
+                            rep.check("C03.no_panic", regime, false, || {
+                                let mut c = ctx();
+                                c["draw_index"] = json!(xs.len());
+                                c["panic"] = json!(msg1);
+                                c
+                            });
+                            return DrawEnd::Aborted;
+                        }
+                    }
+                }
+            }
+            Err(msg) => {
+                rep.check("C03.no_panic", regime, false, || {
+                    let mut c = ctx();
+                    c["call"] = json!(format!("{:?} x{}", mode, m));
+                    c["draws_before"] = json!(xs.len());
+                    c["panic"] = json!(msg);
+                    c["expected"] = json!("a draw (valid parameters)");
+                    c
+                });
+                return DrawEnd::Aborted;
+            }
+        }
+    }
+    DrawEnd::Done
+}
+
+thread_local! {
+    static BUDGET_NOW: std::cell::Cell<u64> = const { std::cell::Cell::new(BUDGET) };
+}
+
+fn arm_budget(cfg: &Cfg) {
+    // Miri executes ~10^3 times slower: the smoke run only exercises the plumbing with a smaller
+    // budget (still > 10^3 times the iterations any correct draw needs); the per-draw replay keeps
+    // the verdict sound for any budget.
+    let b = if cfg.miri() { 1_000 } else { BUDGET };
+    BUDGET_NOW.with(|c| c.set(b));
+    vh::reset();
+    vh::set_budget(b);
+}
+
+fn rng_draws_since(state0: u64) -> u64 {
+    alea::get_seed().wrapping_sub(state0).wrapping_mul(WY_INV)
+}
+
+/// sup|F_n − F| evaluated at every sample point and its left limit (`stats::ks_distance`).
+#[cfg(not(miri))]
+fn ks(xs: &mut [f64], cdf: &dyn Fn(f64) -> f64, cdf_left: &dyn Fn(f64) -> f64) -> (f64, f64) {
+    stats::ks_distance(xs, cdf, cdf_left)
+}
+
+// ---------------------------------------------------------------------------------------------
+// one 1-D case
+
+fn run_1d(cfg: &Cfg, rep: &mut Report, law: &Law, n: usize, seed: u64) {
+    let regime = law.regime();
+    rep.case(regime);
+    let nontrivial = law.point_mass().is_none();
+    rep.distinct(law.hash(seed), nontrivial);
+    let ctx = || json!({"family": law.family(), "params": jf(&law.params()), "law": format!("{:?}", law), "alea_seed": seed, "n_requested": n});
+    arm_budget(cfg);
+    let d = match guard(|| law.build()) {
+        Ok(d) => d,
+        Err(msg) => {
+            rep.check("C03.no_panic", regime, false, || {
+                let mut c = ctx();
+                c["call"] = json!("constructor");
+                c["panic"] = json!(msg);
+                c
+            });
+            vh::set_budget(u64::MAX);
+            return;
+        }
+    };
+    alea::set_seed(seed);
+    let state0 = alea::get_seed();
+    let chunk = if cfg.lite { 16 } else { 1024 };
+    let plan = schedule(n, chunk);
+    let mut xs: Vec<f64> = Vec::with_capacity(n + 64);
+    let mut local = SiteCounts::new();
+    let mut bulk = BulkStat { n_calls: 0, m_calls: 0, n_bad: None, m_bad: None };
+    let end = draw_1d(rep, regime, d.as_ref(), &plan, &mut xs, &mut local, &mut bulk, &ctx);
+    vh::set_budget(u64::MAX);
+    let raw = rng_draws_since(state0);
+    flush(rep, &local);
+    rep.note_add(&format!("draws.{}", law.family()), xs.len() as f64);
+    rep.note_add(&format!("rng_raw_draws.{}", law.family()), raw as f64);
+    let n_drawn = xs.len();
+    let sample_json = |outcome: Value| json!({"law": format!("{:?}", law), "regime": regime, "alea_seed": seed, "n": n_drawn, "outcome": outcome});
+    if let DrawEnd::Aborted = end {
+        rep.sample(|| sample_json(json!("aborted: see violations")));
+        return;
+    }
+    rep.check("C03.no_panic", regime, true, || json!(null));
+    rep.check("C03.terminates", regime, true, || json!(null));
+    // bulk count / shape
+    if bulk.n_calls > 0 {
+        let bad = bulk.n_bad.take();
+        rep.check("C03.bulk.sample_n.count", regime, bad.is_none(), || {
+            let mut c = ctx();
+            c["observed"] = bad.clone().unwrap_or(json!(null));
+            c
+        });
+    }
+    if bulk.m_calls > 0 {
+        let bad = bulk.m_bad.take();
+        rep.check("C03.bulk.sample_matrix.shape", regime, bad.is_none(), || {
+            let mut c = ctx();
+            c["observed"] = bad.clone().unwrap_or(json!(null));
+            c
+        });
+    }
+    let total: usize = plan.iter().map(|p| p.1).sum();
+    rep.check("C03.bulk.total", regime, xs.len() == total, || {
+        let mut c = ctx();
+        c["observed_total"] = json!(xs.len());
+        c["expected_total"] = json!(total);
+        c
+    });
+    // support
+    let bad = xs.iter().position(|&x| !law.in_support(x));
+    rep.check("C03.support", regime, bad.is_none(), || {
+        let mut c = ctx();
+        let i = bad.unwrap();
+        c["draw_index"] = json!(i);
+        c["observed"] = jnum(xs[i]);
+        c["count_outside"] = json!(xs.iter().filter(|&&x| !law.in_support(x)).count());
+        c["expected"] = json!("finite value inside the closed support");
+        c
+    });
+    if law.discrete() {
+        let badi = xs.iter().position(|&x| !(x.is_finite() && x == x.trunc()));
+        rep.check("C03.integer", regime, badi.is_none(), || {
+            let mut c = ctx();
+            c["draw_index"] = json!(badi.unwrap());
+            c["observed"] = jnum(xs[badi.unwrap()]);
+            c
+        });
+    }
+    // the branch the label promises really ran
+    for site in law.expected_sites() {
+        if local.get(site).copied().unwrap_or(0) == 0 {
+            rep.inconclusive(format!("case {:?} (regime {}) never ticked hook site {}", law, regime, site));
+        }
+    }
+    let per = raw as f64 / xs.len().max(1) as f64;
+    rep.note_max(&format!("rng_raw_draws_per_sample_max.{}", law.family()), per);
+    // DKW
+    #[cfg(not(miri))]
+    {
+        if xs.iter().any(|x| !x.is_finite()) {
+            // already a support violation; F_n is not defined on non-finite draws
+            rep.sample(|| sample_json(json!("non-finite draws")));
+            return;
+        }
+        let nn = xs.len();
+        let eps = stats::dkw_eps(nn, ALPHA);
+        // continuous laws: rounding-aware statistic (a draw is only known to one ulp)
+        let (dist, at) = if law.discrete() || law.point_mass().is_some() {
+            ks(&mut xs, &|x| law.cdf(x), &|x| law.cdf_left(x))
+        } else {
+            stats::ks_distance_rounded(&mut xs, |x| law.cdf(x))
+        };
+        let ok = dist <= eps;
+        let ratio = dist / eps;
+        rep.note_max(&format!("worst_ratio.dkw.{}", regime), ratio);
+        if ok {
+            rep.note_max("worst_ratio.dkw_passing_cases", ratio);
+        }
+        rep.check("C03.dkw", regime, ok, || {
+            let mut c = ctx();
+            let below = xs.iter().filter(|&&x| x < at).count();
+            let upto = xs.iter().filter(|&&x| x <= at).count();
+            c["n"] = json!(nn);
+            c["D"] = jnum(dist);
+            c["eps"] = json!(eps);
+            c["alpha"] = json!(ALPHA);
+            c["argmax_x"] = jnum(at);
+            c["F_left(x)"] = jnum(law.cdf_left(at));
+            c["F(x)"] = jnum(law.cdf(at));
+            c["Fn_left(x)"] = json!(below as f64 / nn as f64);
+            c["Fn(x)"] = json!(upto as f64 / nn as f64);
+            c["sample_mean"] = jnum(xs.iter().sum::<f64>() / nn as f64);
+            c
+        });
+        rep.sample(|| sample_json(json!({"D": dist, "eps": eps, "rng_raw_draws_per_sample": per})));
+    }
+    #[cfg(miri)]
+    rep.sample(|| sample_json(json!({"rng_raw_draws_per_sample": per})));
+}
+
+// ---------------------------------------------------------------------------------------------
+// one MVN case
+
+fn run_mvn(cfg: &Cfg, rep: &mut Report, spec: &MvnSpec, n: usize, seed: u64, rng: &mut Rng) {
+    let regime = spec.regime;
+    let d = spec.mean.len();
+    rep.case(regime);
+    rep.distinct(Hasher::new().s("mvn").fs(&spec.mean).fs(&spec.sigma).u(seed).finish(), true);
+    let ctx = || json!({"family": "mvn", "dim": d, "mean": jf(&spec.mean), "sigma_row_major": jf(&spec.sigma), "alea_seed": seed, "n_requested": n});
+    let l = match linref::cholesky(&spec.sigma, d) {
+        Some(l) => l,
+        None => {
+            rep.inconclusive(format!("generator produced a covariance the reference Cholesky rejects: {:?}", spec.sigma));
+            return;
+        }
+    };
+    arm_budget(cfg);
+    let mvn = match guard(|| MVN::new(Vector::new(spec.mean.clone()), Matrix::new(spec.sigma.clone(), d as i32, d as i32))) {
+        Ok(m) => m,
+        Err(msg) => {
+            rep.check("C03.no_panic", regime, false, || {
+                let mut c = ctx();
+                c["call"] = json!("MVN::new");
+                c["panic"] = json!(msg);
+                c["expected"] = json!("a distribution object (symmetric positive definite covariance)");
+                c
+            });
+            vh::set_budget(u64::MAX);
+            return;
+        }
+    };
+    let dim_ok = mvn.get_dim() == d;
+    rep.check("C03.mvn.dim", regime, dim_ok, || {
+        let mut c = ctx();
+        c["get_dim"] = json!(mvn.get_dim());
+        c
+    });
+    alea::set_seed(seed);
+    let state0 = alea::get_seed();
+    // raw draws, row-major n x d
+    let mut raw: Vec<f64> = Vec::with_capacity(n * d);
+    let mut local = SiteCounts::new();
+    let chunk = if cfg.lite { 8 } else { 512 };
+    let mut have = 0usize;
+    let mut k = 0usize;
+    let mut shape_bad: Option<Value> = None;
+    let mut calls_n = 0u64;
+    let mut calls_1 = 0u64;
+    let mut aborted = false;
+    while have < n && !aborted {
+        let m = if k == 0 { 1 } else { chunk.min(n - have) };
+        let single = k % 2 == 1;
+        let state = alea::get_seed();
+        let r = guard(|| {
+            if single {
+                let mut out = Vec::with_capacity(m * d);
+                let mut lens_ok = true;
+                for _ in 0..m {
+                    let v: Vector = mvn.sample();
+                    lens_ok &= v.len() == d;
+                    out.extend_from_slice(&v.v);
+                }
+                (out, if lens_ok { m } else { usize::MAX }, d)
+            } else {
+                let mm: Matrix = DistributionND::sample_n(&mvn, m);
+                (mm.data.v, mm.nrows, mm.ncols)
+            }
+        });
+        absorb(&mut local);
+        match r {
+            Ok((v, nr, nc)) => {
+                if single {
+                    calls_1 += 1;
+                } else {
+                    calls_n += 1;
+                }
+                if nr != m || nc != d || v.len() != m * d {
+                    if shape_bad.is_none() {
+                        shape_bad = Some(json!({"api": if single {"sample"} else {"sample_n"}, "requested": [m, d], "returned_shape": [if nr == usize::MAX { json!("a draw with len != d") } else { json!(nr) }, json!(nc)], "returned_len": v.len()}));
+                    }
+                    aborted = true; // rows cannot be delimited any more
+                } else {
+                    raw.extend_from_slice(&v);
+                    have += m;
+                }
+            }
+            Err(msg) => {
+                // decide per draw when it was the budget; any other panic is a violation
+                let mut msg_final = msg.clone();
+                let mut budget = is_budget_panic(&msg);
+                if budget {
+                    alea::set_seed(state);
+                    budget = false;
+                    let mut all_ok = true;
+                    for _ in 0..m {
+                        vh::reset();
+                        let one = guard(|| mvn.sample());
+                        absorb(&mut local);
+                        match one {
+                            Ok(v) if v.len() == d => raw.extend_from_slice(&v.v),
+                            Ok(_) => {
+                                all_ok = false;
+                                msg_final = "draw with len != d".into();
+                                break;
+                            }
+                            Err(m1) => {
+                                all_ok = false;
+                                budget = is_budget_panic(&m1);
+                                msg_final = m1;
+                                break;
+                            }
+                        }
+                    }
+                    if all_ok {
+                        have += m;
+                        k += 1;
+                        continue;
+                    }
+                }
+                let id = if budget { "C03.terminates" } else { "C03.no_panic" };
+                rep.check(id, regime, false, || {
+                    let mut c = ctx();
+                    c["draws_before"] = json!(have);
+                    c["panic"] = json!(msg_final);
+                    c
+                });
+                aborted = true;
+            }
+        }
+        k += 1;
+    }
+    vh::set_budget(u64::MAX);
+    let rawdraws = rng_draws_since(state0);
+    flush(rep, &local);
+    rep.note_add("draws.mvn", have as f64);
+    rep.note_add("rng_raw_draws.mvn", rawdraws as f64);
+    if calls_n + calls_1 > 0 {
+        let bad = shape_bad.take();
+        rep.check("C03.bulk.mvn.shape", regime, bad.is_none(), || {
+            let mut c = ctx();
+            c["observed"] = bad.clone().unwrap_or(json!(null));
+            c
+        });
+        if bad.is_some() {
+            return;
+        }
+    }
+    if aborted {
+        return;
+    }
+    rep.check("C03.no_panic", regime, true, || json!(null));
+    rep.check("C03.terminates", regime, true, || json!(null));
+    if local.get("normal.zig").copied().unwrap_or(0) == 0 {
+        rep.inconclusive(format!("mvn case (regime {}) never ticked normal.zig", regime));
+    }
+    let nn = have;
+    let badpos = raw.iter().position(|x| !x.is_finite());
+    rep.check("C03.support", regime, badpos.is_none(), || {
+        let mut c = ctx();
+        let i = badpos.unwrap();
+        c["draw_index"] = json!(i / d);
+        c["coordinate"] = json!(i % d);
+        c["observed"] = jnum(raw[i]);
+        c
+    });
+    if badpos.is_some() {
+        return;
+    }
+    // whiten in place: z = L^{-1} (x − μ) with the harness's own factor of the *requested* Σ
+    let mut mean_err = 0.0f64;
+    let mut s1 = vec![0.0f64; d];
+    let mut s2 = vec![0.0f64; d * d];
+    for row in raw.chunks_exact_mut(d) {
+        for i in 0..d {
+            let mut v = row[i] - spec.mean[i];
+            for j in 0..i {
+                v -= l[i * d + j] * row[j];
+            }
+            row[i] = v / l[i * d + i];
+        }
+        for i in 0..d {
+            s1[i] += row[i];
+            for j in 0..=i {
+                s2[i * d + j] += row[i] * row[j];
+            }
+        }
+    }
+    // evidence only: mean / covariance of the whitened draws (should be 0 / I)
+    let mut cov_err = 0.0f64;
+    for i in 0..d {
+        let mi = s1[i] / nn as f64;
+        mean_err = mean_err.max(mi.abs());
+        for j in 0..=i {
+            let mj = s1[j] / nn as f64;
+            let c = s2[i * d + j] / nn as f64 - mi * mj;
+            let want = if i == j { 1.0 } else { 0.0 };
+            cov_err = cov_err.max((c - want).abs());
+        }
+    }
+    rep.note_max("mvn.whitened_mean_abs_err_max", mean_err);
+    rep.note_max("mvn.whitened_cov_abs_err_max", cov_err);
+    #[cfg(not(miri))]
+    {
+        let eps = stats::dkw_eps(nn, ALPHA);
+        let std_cdf = |x: f64| sp::norm_cdf(x, 0.0, 1.0);
+        let mut buf: Vec<f64> = vec![0.0; nn];
+        let mut worst = 0.0f64;
+        for j in 0..d {
+            for (t, row) in raw.chunks_exact(d).enumerate() {
+                buf[t] = row[j];
+            }
+            let (dist, at) = ks(&mut buf, &std_cdf, &std_cdf);
+            worst = worst.max(dist / eps);
+            rep.check("C03.mvn.coord", regime, dist <= eps, || {
+                let mut c = ctx();
+                c["whitened_coordinate"] = json!(j);
+                c["n"] = json!(nn);
+                c["D"] = jnum(dist);
+                c["eps"] = json!(eps);
+                c["argmax_x"] = jnum(at);
+                c["whitened_mean_abs_err"] = json!(mean_err);
+                c["whitened_cov_abs_err"] = json!(cov_err);
+                c["expected"] = json!("N(0,1) after whitening with chol(requested covariance)");
+                c
+            });
+        }
+        for p in 0..8 {
+            let mut u: Vec<f64> = rng.normals(d);
+            let nrm = u.iter().map(|x| x * x).sum::<f64>().sqrt();
+            if !(nrm > 0.0) {
+                u = vec![0.0; d];
+                u[0] = 1.0;
+            } else {
+                for x in u.iter_mut() {
+                    *x /= nrm;
+                }
+            }
+            for (t, row) in raw.chunks_exact(d).enumerate() {
+                let mut s = 0.0;
+                for i in 0..d {
+                    s += u[i] * row[i];
+                }
+                buf[t] = s;
+            }
+            let (dist, at) = ks(&mut buf, &std_cdf, &std_cdf);
+            worst = worst.max(dist / eps);
+            rep.check("C03.mvn.proj", regime, dist <= eps, || {
+                let mut c = ctx();
+                c["projection_index"] = json!(p);
+                c["unit_direction_in_whitened_space"] = jf(&u);
+                c["n"] = json!(nn);
+                c["D"] = jnum(dist);
+                c["eps"] = json!(eps);
+                c["argmax_x"] = jnum(at);
+                c
+            });
+        }
+        rep.note_max(&format!("worst_ratio.dkw.{}", regime), worst);
+        // (a failing MVN case is not a "passing case"; only record the margin when everything passed)
+        if worst <= 1.0 {
+            rep.note_max("worst_ratio.dkw_passing_cases", worst);
+        }
+    }
+    #[cfg(miri)]
+    let _ = rng;
+    rep.sample(|| json!({"law": "MVN", "regime": regime, "dim": d, "alea_seed": seed, "n": nn, "whitened_mean_abs_err": mean_err, "whitened_cov_abs_err": cov_err}));
+}
+
+// ---------------------------------------------------------------------------------------------
+
+const REGIMES_1D: &[&str] = &[
+    "normal:sigma>0",
+    "normal:sigma=0",
+    "gamma:shape<1/3",
+    "gamma:shape=1/3",
+    "gamma:1/3<shape<1",
+    "gamma:shape>=1",
+    "beta:min(a,b)<1/3",
+    "beta:1/3<min(a,b)<1",
+    "beta:a,b>=1",
+    "chi2:dof<2",
+    "chi2:dof>=2",
+    "t:dof<2/3",
+    "t:2/3<dof<2",
+    "t:dof>=2",
+    "poisson:rate<10",
+    "poisson:10<=rate<=100",
+    "poisson:100<rate<150",
+    "poisson:rate>=150",
+    "binomial:n=0",
+    "binomial:p=0",
+    "binomial:p=1",
+    "binomial:n*min(p,1-p)<=30:p<=0.5",
+    "binomial:n*min(p,1-p)<=30:p>0.5",
+    "binomial:n*min(p,1-p)>30:p<=0.5",
+    "binomial:n*min(p,1-p)>30:p>0.5",
+    "exponential",
+    "gumbel",
+    "pareto",
+    "uniform:lower<upper",
+    "uniform:equal-bounds",
+    "discrete-uniform:lower<upper",
+    "discrete-uniform:equal-bounds",
+    "bernoulli:0<p<1",
+    "bernoulli:p=0",
+    "bernoulli:p=1",
+];
+const REGIMES_MVN: &[&str] = &["mvn:d=1", "mvn:identity", "mvn:diagonal", "mvn:correlated"];
+
+/// (site, minimum in a native run, required (>= 1) in the lite / Miri smoke run of 48 draws per regime)
+const SITES: &[(&str, u64, bool)] = &[
+    ("normal.zig", 100, true),
+    ("normal.zig.wedge", 100, false),
+    ("normal.zig.tail", 100, false),
+    ("gamma.outer", 100, true),
+    ("gamma.inner", 100, true),
+    ("gamma.squeeze", 100, true),
+    ("gamma.log", 100, false),
+    ("poisson.mult", 100, true),
+    ("poisson.ptrs", 100, true),
+    ("poisson.ptrs.fast", 100, false),
+    ("poisson.ptrs.slow", 100, false),
+    ("binomial.inv.call", 100, true),
+    ("binomial.inv", 100, true),
+    ("binomial.flip", 100, true),
+    ("binomial.btpe.call", 100, true),
+    ("binomial.btpe", 100, true),
+    ("btpe.1", 100, true),
+    ("btpe.2", 100, false),
+    ("btpe.3", 100, false),
+    ("btpe.4", 100, false),
+    ("btpe.5.1", 100, false),
+    ("btpe.5.1.loop", 100, false),
+    ("btpe.5.2", 100, false),
+    ("btpe.5.3", 100, false),
+];
+
+pub fn run(cfg: &Cfg, rep: &mut Report) {
+    rep.rule = "fixed grid of parameter points covering every sampler branch named in the quantifier (gamma shape <1/3, =1/3, <1, >=1 and beta/chi2/t built on it; Poisson rate <10, 10..100, 125/149, >=150; binomial inversion/BTPE on both sides of n*min(p,1-p)=30 with and without the p<->1-p flip, p in {0,1}, n up to 1e5; equal-bounds uniform/discrete uniform; normal |mu|<=1e3, sigma=0; MVN d=1..4) plus random parameter points inside the same regimes; each case = one law, one alea seed, n draws requested through sample/sample_n/sample_matrix in turn (quick 2e5, thorough 4e6; the grid is run with 2 (quick) / 3 (thorough) alea seeds per point plus 32 / 96 random points; quick adds 24 sentinel cases at n = 4e6). non-trivial = the law is not a point mass; distinct by (law, parameters, alea seed)".into();
+    rep.assume("parameters are finite and accepted by the constructor's documented domain (no NaN/inf parameters)");
+    rep.assume("bulk shapes have positive dimensions for the matrix forms (Matrix cannot represent 0 rows: C15); sample_n(0) is checked for the vector form");
+    rep.assume("'terminates' is restated as bounded progress: no single draw ticks any rejection-loop site more than 1e6 times (DESIGN §0)");
+    rep.assume("discrete-uniform bounds within ±1e9, binomial n <= 1e5, Poisson rate <= 3e3, MVN dimension <= 4 with cond(Σ) < 1e6");
+    rep.assume("supports are taken closed (a boundary value produced by rounding is accepted)");
+    if cfg.miri() {
+        rep.assume("Miri smoke: no FFI, so only no_panic/terminates/bulk/support/integer assertions run; DKW needs the native layer");
+    }
+    let n = cfg.pick(200_000, 4_000_000, 48);
+    // case list: deterministic function of (tier, seed)
+    let mut gen = Rng::new(cfg.seed ^ 0xC03C03C03);
+    let mut cases: Vec<(CaseSpec, usize)> = base_grid().into_iter().map(|c| (c, n)).collect();
+    if cfg.lite {
+        // keep every regime once (first grid point of each label), drop repeats
+        let mut seen = std::collections::BTreeSet::new();
+        cases.retain(|c| {
+            let r = match &c.0 {
+                CaseSpec::One(l) => l.regime(),
+                CaseSpec::Mvn(m) => m.regime,
+            };
+            seen.insert(r)
+        });
+    } else {
+        // "× RNG seeds": the grid is repeated (every repetition gets its own alea seed)
+        let reps = if cfg.thorough() { 3 } else { 2 };
+        for _ in 1..reps {
+            cases.extend(base_grid().into_iter().map(|c| (c, n)));
+        }
+        let extra = if cfg.thorough() { 96 } else { 32 };
+        for _ in 0..extra {
+            cases.push((random_case(&mut gen), n));
+        }
+        if !cfg.thorough() {
+            // the quick tier has time to spare: one deeper case (n = 4e6, eps = 1.9e-3, the upper end of the
+            // property's range 2e5..4e6) per algorithm branch of *correct* regimes, so that subtle
+            // changes to a hat/squeeze/wedge are visible without waiting for the thorough tier
+            for c in sentinels() {
+                cases.push((c, DEEP_N));
+            }
+        }
+        // spread heavy and light cases over the workers
+        gen.shuffle(&mut cases);
+    }
+    rep.note("cases", json!(cases.len()));
+    rep.note("n_per_case", json!(n));
+    #[cfg(not(miri))]
+    rep.note("dkw_eps", json!(stats::dkw_eps(n, ALPHA)));
+    par_cases(cfg, rep, 1, cases.len(), |i, rng, rep| {
+        let seed = rng.u64() | 1;
+        let nc = cases[i].1;
+        match &cases[i].0 {
+            CaseSpec::One(law) => run_1d(cfg, rep, law, nc, seed),
+            // n x d doubles (d <= 4) is the only large allocation: 128 MB per case at 4e6 rows
+            CaseSpec::Mvn(spec) => run_mvn(cfg, rep, spec, nc, seed, rng),
+        }
+    });
+    for r in REGIMES_1D.iter().chain(REGIMES_MVN) {
+        rep.require(r, 1);
+    }
+    for &(site, min, in_miri) in SITES {
+        if cfg.lite {
+            if in_miri {
+                rep.require(site, 1);
+            }
+        } else {
+            rep.require(site, min);
+        }
+    }
 }
